@@ -42,11 +42,59 @@ pub struct Case {
     pub range: Range,
     /// read_to_vec instead of read
     pub to_vec: bool,
+    /// the dumper has more than one target: immediately before the judged read the same thread reads
+    /// a few bytes from ANOTHER process (an idle helper) through the same entry point
+    #[serde(default)]
+    pub other_target_first: bool,
+}
+
+thread_local! {
+    static DECOY: std::cell::Cell<Option<(i32, usize, [u8; 8])>> = const { std::cell::Cell::new(None) };
+}
+
+/// An unrelated live process and a readable address in it (start of its first readable mapping).
+fn decoy() -> Option<(i32, usize, [u8; 8])> {
+    if let Some(d) = DECOY.with(|d| d.get()) {
+        return Some(d);
+    }
+    let pid = crate::vcore::helpers::spawn_idle();
+    let maps = crate::props::fid::parse_maps(&std::fs::read(format!("/proc/{pid}/maps")).ok()?);
+    let addr = maps.iter().find(|l| l.perms & 1 != 0 && !l.name.starts_with('['))?.start as usize;
+    use std::os::unix::fs::FileExt;
+    let mut truth = [0u8; 8];
+    std::fs::File::open(format!("/proc/{pid}/mem")).ok()?.read_exact_at(&mut truth, addr as u64).ok()?;
+    DECOY.with(|d| d.set(Some((pid, addr, truth))));
+    Some((pid, addr, truth))
+}
+
+/// Reads 8 bytes of the other process the way the case's style reads; Some(problem) if they are wrong.
+fn read_other_target(style: Style) -> Option<String> {
+    let (pid, addr, truth) = decoy()?;
+    let got: Result<Vec<u8>, String> = match style {
+        Style::CopyFromProcess => PtraceDumper::copy_from_process(pid, addr, 8).map_err(|e| format!("{e:?}")),
+        Style::Auto => MemReader::new(pid).read_to_vec(addr, std::num::NonZeroUsize::new(8).unwrap()).map_err(|e| format!("{e:?}")),
+        Style::VirtualMem => MemReader::for_virtual_mem(pid).read_to_vec(addr, std::num::NonZeroUsize::new(8).unwrap()).map_err(|e| format!("{e:?}")),
+        Style::File => MemReader::for_file(pid).ok()?.read_to_vec(addr, std::num::NonZeroUsize::new(8).unwrap()).map_err(|e| format!("{e:?}")),
+        // word-by-word ptrace needs a stopped tracee: the other process is not traced
+        Style::Ptrace => return None,
+    };
+    match got {
+        Ok(v) if v == truth => None,
+        Ok(v) => Some(format!("8 bytes at {addr:#x} of process {pid}: got {v:02x?}, it holds {truth:02x?}")),
+        Err(e) => Some(format!("8 bytes at {addr:#x} of process {pid} (readable): {e}")),
+    }
 }
 
 const SEED: u64 = 0xC17;
 
 pub fn check(c: &Case) -> Verdict {
+    if c.other_target_first {
+        // make sure the arena helper exists (and was read before) in half of these cases, so that both
+        // orders - other process first / arena first - occur within one lane
+        if let Some(p) = read_other_target(c.style) {
+            return Verdict::viol(format!("C17:{:?}:other-target:wrong-bytes-or-failure", c.style), p);
+        }
+    }
     let r = with_arena(|a| {
         // (re)fill with the address-derived pattern once
         if a.bytes()[0] != pat(0, SEED) || a.bytes()[4097] != pat(4097, SEED) {
@@ -318,8 +366,9 @@ pub fn case_strategy() -> impl Strategy<Value = Case> {
             2 => (any::<u32>(), any::<u32>()).prop_map(|(start, len)| Range::Big { start, len }),
         ],
         any::<bool>(),
+        proptest::bool::weighted(0.3),
     )
-        .prop_map(|(style, ro, range, to_vec)| Case { style, ro, range, to_vec })
+        .prop_map(|(style, ro, range, to_vec, other_target_first)| Case { style, ro, range, to_vec, other_target_first })
 }
 
 pub fn run(ctx: &mut LaneCtx) {
@@ -328,7 +377,7 @@ pub fn run(ctx: &mut LaneCtx) {
         SubSpec {
             name: "strategies",
             cases: (40_000, 3_000_000),
-            rule: "(strategy in {process_vm_readv, /proc/pid/mem, PTRACE_PEEKDATA, auto-probe, copy_from_process}) x view {rw followed by PROT_NONE page, read-only followed by unmapped memory} x range {anywhere inside, starting within 16 bytes of the low edge (nothing mapped below), ending 0..8 bytes before the end, crossing the end, or anywhere in a 40-page view so that 17 and more pages are touched} x length 1..64 KiB at all alignments, via read() and read_to_vec(); oracle = address-derived pattern; non-trivial = length not a multiple of 8, or range within 8 bytes of / across the mapping end; distinct = hash of case",
+            rule: "(strategy in {process_vm_readv, /proc/pid/mem, PTRACE_PEEKDATA, auto-probe, copy_from_process}) x view {rw followed by PROT_NONE page, read-only followed by unmapped memory} x range {anywhere inside, starting within 16 bytes of the low edge (nothing mapped below), ending 0..8 bytes before the end, crossing the end, or anywhere in a 40-page view so that 17 and more pages are touched} x length 1..64 KiB at all alignments, via read() and read_to_vec(); in three cases of ten the same thread first reads 8 bytes of ANOTHER live process through the same entry point (a dumper with more than one target), which must be that process's bytes; oracle = address-derived pattern; non-trivial = length not a multiple of 8, or range within 8 bytes of / across the mapping end; distinct = hash of case",
             strategy: case_strategy().boxed(),
             max_shrink_iters: 2048,
             log_current: true,
